@@ -23,10 +23,29 @@ Model: `NtpVerif.Wire.parse` with the decryption oracle as a parameter; the idea
                               original and the received packet differs from it somewhere in those `o` bytes
                               (one bit or many), nothing is reported as authentic.
 
-Not proved in Lean (checked exhaustively over positions by stream `c25_tamper`): the nonce/ciphertext clause and
-the second sentence.  Unforgeability itself is the cipher's (trusted, DESIGN §1.1).
+  nothing_unless_sealed_triple  sharper form for EVERY cipher: only the triples (packet prefix up to an encrypted field,
+                              that field's nonce, that field's ciphertext) that actually stand in the packet
+                              ever reach the cipher; if none of them decrypts, nothing is authentic.
+  authentic_implies_sealed_triple   ideal cipher: anything authentic ⇒ a recorded encryption whose associated data,
+                              nonce and ciphertext stand in the received bytes at that very offset.
+  tamper_fails                FIRST SENTENCE, complete (ideal cipher + freshness): if the received packet differs
+                              from the sealed one in the header / a field before the authenticator (its first `o`
+                              bytes), or in the authenticator's nonce bytes, or in its ciphertext bytes, the
+                              decoder reports no authenticated field, no encrypted field and no cookie keys.
+  tamper_nonce_ct_fails       the nonce/ciphertext clause on its own.
+  nonce_byte_change, ct_byte_change   a changed byte inside the nonce / ciphertext region (length words untouched)
+                              changes the nonce / ciphertext bytes compared by `tamper_fails`.
+  other_changes_harmless      SECOND SENTENCE (ideal cipher + freshness): for any received packet that still starts
+                              with the sealed prefix (so: changes confined to the authenticator's own length words
+                              and padding, or to anything after it — or any other bytes from offset `o` on),
+                              either it reports nothing as authentic, or exactly the authenticated and encrypted
+                              lists of the sealed packet (and its cookie keys, or none).
+
+Freshness hypothesis (`Fresh T P N C`, stated explicitly): the only recorded encryption whose associated data is a
+whole-packet prefix (48 bytes or more — cookies are sealed with empty associated data) is the one of this packet:
+prefix `P`, nonce `N`, ciphertext `C`.  Unforgeability itself is the cipher's (trusted, DESIGN §1.1).
 -/
-import NtpVerif.Proofs.WireAuth
+import NtpVerif.Proofs.WireAuth5
 
 namespace NtpVerif.C25
 open NtpVerif.Wire
@@ -45,16 +64,6 @@ theorem nothing_unless_decrypt (dec : Dec) (ctx : Ctx) (b : Bytes) (h : NoPrefix
   · rename_i p c hp; exact (parseR_nothing h hp).1
   all_goals trivial
 
-theorem table_decrypt_some {T : Table} {key nonce ct aad pt : Bytes} (h : T.decrypt key nonce ct aad = some pt) :
-    ∃ e ∈ T, e.key = key ∧ e.nonce = nonce ∧ e.ct = ct ∧ e.aad = aad := by
-  unfold Table.decrypt at h
-  simp only [Option.map_eq_some_iff] at h
-  obtain ⟨e, he, _⟩ := h
-  have hm := List.find?_some he
-  have hmem := List.mem_of_find?_eq_some he
-  simp only [Entry.matches, Bool.and_eq_true, beq_iff_eq] at hm
-  exact ⟨e, hmem, hm.1.1.1, hm.1.1.2, hm.1.2, hm.2⟩
-
 /-- ideal cipher: authentic content implies that a recorded encryption covered a prefix of these very bytes -/
 theorem authentic_implies_sealed_prefix (T : Table) (ctx : Ctx) (b : Bytes)
     (h : ¬ ReportsNothing (parse T.decrypt ctx b)) :
@@ -68,7 +77,7 @@ theorem authentic_implies_sealed_prefix (T : Table) (ctx : Ctx) (b : Bytes)
   | none => rfl
   | some pt =>
     exfalso
-    obtain ⟨e, he, _, _, _, ha⟩ := table_decrypt_some hd
+    obtain ⟨e, he, _, _, _, ha⟩ := Table.decrypt_some hd
     apply hn
     refine ⟨e, he, ?_, ?_⟩
     · rw [ha]; simp [List.length_take]; omega
@@ -86,6 +95,115 @@ theorem tamper_before_fails (T : Table) (ctx : Ctx) (b b' : Bytes) (o : Nat)
   have hl : e.aad.length = o := by rw [ha]; simp [List.length_take]; omega
   rw [hl] at hp
   exact hdiff (by rw [← hp, ha])
+
+/-! #### the exact triples -/
+
+theorem nothing_unless_sealed_triple (dec : Dec) (ctx : Ctx) (b : Bytes) (h : NoTripleDecrypts dec b) :
+    ReportsNothing (parse dec ctx b) := by
+  unfold parse
+  split
+  · rename_i p c hp; exact parseR_nothing' h hp
+  · rename_i p c hp; exact (parseR_nothing' h hp).1
+  all_goals trivial
+
+/-- ideal cipher: authentic content implies a recorded encryption whose associated data is the packet up to an
+    encrypted field that carries the recorded nonce and ciphertext -/
+theorem authentic_implies_sealed_triple (T : Table) (ctx : Ctx) (b : Bytes)
+    (h : ¬ ReportsNothing (parse T.decrypt ctx b)) :
+    ∃ e ∈ T, ∃ ver, 48 ≤ e.aad.length ∧ e.aad = b.take e.aad.length ∧
+      AuthAt b ver e.aad.length e.nonce e.ct := by
+  apply Classical.byContradiction
+  intro hn
+  apply h
+  apply nothing_unless_sealed_triple
+  intro key ver n nonce ct h48 hn' hat
+  cases hd : T.decrypt key nonce ct (b.take n) with
+  | none => rfl
+  | some pt =>
+    exfalso
+    obtain ⟨e, he, _, h2, h3, ha⟩ := Table.decrypt_some hd
+    apply hn
+    have hl : e.aad.length = n := by rw [ha]; simp [List.length_take]; omega
+    refine ⟨e, he, ver, by omega, ?_, ?_⟩
+    · rw [hl, ha]
+    · rw [hl, h2, h3]; exact hat
+
+/-- the nonce / ciphertext clause: if what stands at the sealed offset does not carry the sealed nonce and
+    ciphertext bytes, nothing is authentic -/
+theorem tamper_nonce_ct_fails (T : Table) (ctx : Ctx) (P N C b' : Bytes) (o : Nat)
+    (hF : Fresh T P N C) (hP : P.length = o)
+    (hdiff : authNonce (b'.drop o) ≠ N ∨ authCt (b'.drop o) ≠ C) :
+    ReportsNothing (parse T.decrypt ctx b') := by
+  apply Classical.byContradiction
+  intro hn
+  obtain ⟨e, he, ver, h48, _, msg, hraw, hfm⟩ := authentic_implies_sealed_triple T ctx b' hn
+  obtain ⟨a, b, c⟩ := hF e he h48
+  have hl : e.aad.length = o := by rw [a, hP]
+  rw [hl] at hraw
+  rw [b, c] at hfm
+  obtain ⟨n1, n2⟩ := raw_nonce_ct hraw hfm
+  rcases hdiff with h | h
+  · exact h n1.symm
+  · exact h n2.symm
+
+/-- FIRST SENTENCE.  `b` is the sealed packet, its authenticator stands at offset `o`; the table is fresh for
+    (`b[0..o]`, the nonce bytes, the ciphertext bytes).  Any received `b'` that differs in the first `o` bytes
+    (header, fields before the authenticator), in the nonce bytes or in the ciphertext bytes reports nothing. -/
+theorem tamper_fails (T : Table) (ctx : Ctx) (b b' : Bytes) (o : Nat) (ho : o ≤ b.length)
+    (hF : Fresh T (b.take o) (authNonce (b.drop o)) (authCt (b.drop o)))
+    (hdiff : b'.take o ≠ b.take o ∨ authNonce (b'.drop o) ≠ authNonce (b.drop o) ∨
+      authCt (b'.drop o) ≠ authCt (b.drop o)) :
+    ReportsNothing (parse T.decrypt ctx b') := by
+  rcases hdiff with h | h
+  · exact tamper_before_fails T ctx b b' o (fun e he h48 => (hF e he h48).1) ho h
+  · exact tamper_nonce_ct_fails T ctx _ _ _ b' o hF (by simp [List.length_take]; omega) h
+
+/-! "changing any bit of the nonce or ciphertext": a field `type len nonce_len ct_len rest`; a changed byte of
+    `rest` inside the nonce (index `i < nonce_len`) or inside the ciphertext (index `pad4(nonce_len) + j`, `j < ct_len`)
+    changes the nonce / ciphertext bytes that `tamper_fails` compares -/
+
+/-- a changed byte inside the nonce (length words untouched) changes the nonce bytes read off the packet -/
+theorem nonce_byte_change (t0 t1 l0 l1 n0 n1 c0 c1 : UInt8) (rest rest' : Bytes) (i : Nat)
+    (hi : i < be16 n0 n1) (hne : rest'[i]? ≠ rest[i]?) :
+    authNonce (t0 :: t1 :: l0 :: l1 :: n0 :: n1 :: c0 :: c1 :: rest') ≠
+      authNonce (t0 :: t1 :: l0 :: l1 :: n0 :: n1 :: c0 :: c1 :: rest) := by
+  intro h
+  simp only [authNonce] at h
+  have := congrArg (fun l => l[i]?) h
+  simp only [List.getElem?_take, hi, if_true] at this
+  exact hne this
+
+theorem ct_byte_change (t0 t1 l0 l1 n0 n1 c0 c1 : UInt8) (rest rest' : Bytes) (j : Nat)
+    (hj : j < be16 c0 c1)
+    (hne : rest'[nm4u16 (be16 n0 n1) + j]? ≠ rest[nm4u16 (be16 n0 n1) + j]?) :
+    authCt (t0 :: t1 :: l0 :: l1 :: n0 :: n1 :: c0 :: c1 :: rest') ≠
+      authCt (t0 :: t1 :: l0 :: l1 :: n0 :: n1 :: c0 :: c1 :: rest) := by
+  intro h
+  simp only [authCt] at h
+  have := congrArg (fun l => l[j]?) h
+  simp only [List.getElem?_take, hj, if_true, List.getElem?_drop] at this
+  exact hne this
+
+theorem reportsNothing_iff (x : ParseOut) :
+    ReportsNothing x ↔ (x.authLists.1 = [] ∧ x.authLists.2 = [] ∧ x.authCookie = none) := by
+  cases x <;> simp [ReportsNothing, Packet.NothingAuthentic, ParseOut.authLists, ParseOut.authCookie, and_assoc]
+
+/-- SECOND SENTENCE.  `b` is the sealed packet and `b'` any packet with the same first `o` bytes (every change is
+    at or after the authenticator's own type/length words).  Then `b'` reports nothing as authentic, or the
+    sealed packet itself reports nothing, or `b'` reports exactly the same authenticated and encrypted lists, with
+    the same cookie keys or none. -/
+theorem other_changes_harmless (T : Table) (ctx : Ctx) (P N C b b' : Bytes) (o : Nat)
+    (hF : Fresh T P N C) (hP : P.length = o) (ho : 48 ≤ o) (hb : b.take o = P) (hb' : b'.take o = P) :
+    ReportsNothing (parse T.decrypt ctx b') ∨ ReportsNothing (parse T.decrypt ctx b) ∨
+    ((parse T.decrypt ctx b').authLists = (parse T.decrypt ctx b).authLists ∧
+      ((parse T.decrypt ctx b').authCookie = (parse T.decrypt ctx b).authCookie ∨
+       (parse T.decrypt ctx b').authCookie = none ∨ (parse T.decrypt ctx b).authCookie = none)) := by
+  have := parse_related hF hP ho ctx hb' hb
+  unfold Related at this
+  rcases this with h | h | ⟨h1, h2, h3⟩
+  · exact .inl ((reportsNothing_iff _).2 h)
+  · exact .inr (.inl ((reportsNothing_iff _).2 h))
+  · exact .inr (.inr ⟨Prod.ext h1 h2, h3⟩)
 
 /-! #### non-vacuity: a sealed packet is reported as authentic, its tampered copy is not -/
 
@@ -117,8 +235,43 @@ theorem tampered_reports_nothing : ReportsNothing (parse table.decrypt (Ctx.key 
   · exact len_ok
   · exact differs
 
+
+/-- freshness holds for the example table, with the byte-level readers of the nonce and the ciphertext -/
+theorem table_fresh : Fresh table (sealedPacket.take 84) (authNonce (sealedPacket.drop 84))
+    (authCt (sealedPacket.drop 84)) := by
+  intro e he _
+  have : e = { key := [3], nonce := nonce16, aad := hdr4 ++ uidField, ct := tag16, pt := [] } := by
+    simpa [table] using he
+  subst this
+  decide +kernel
+
+/-- one bit of the ciphertext flipped -/
+def tamperedCt : Bytes := hdr4 ++ uidField ++
+  ([0x04, 0x04, 0x00, 0x28, 0x00, 0x10, 0x00, 0x10] ++ nonce16 ++ (0x10 :: List.replicate 15 0x11))
+theorem ct_differs : authCt (tamperedCt.drop 84) ≠ authCt (sealedPacket.drop 84) := by decide +kernel
+
+set_option maxRecDepth 100000 in
+theorem tamperedCt_reports_nothing : ReportsNothing (parse table.decrypt (Ctx.key [3]) tamperedCt) := by
+  apply tamper_fails table (Ctx.key [3]) sealedPacket tamperedCt 84 len_ok table_fresh
+  exact .inr (.inr ct_differs)
+
+/-- a 28-byte unauthenticated field appended after the authenticator: same prefix, and the decode still reports the
+    sealed content (the third alternative of `other_changes_harmless` is the one that occurs) -/
+def extended : Bytes := sealedPacket ++ ([0x55, 0x55, 0x00, 0x1C] ++ List.replicate 24 0x01)
+example : extended.take 84 = sealedPacket.take 84 := by decide +kernel
+example : (match parse table.decrypt (.key [3]) extended with
+    | .ok p _ => p.ef.authenticated.length == 1 && p.ef.untrusted.length == 1 | _ => false) = true := by
+  decide +kernel
+
 end NtpVerif.C25
 
 #print axioms NtpVerif.C25.nothing_unless_decrypt
 #print axioms NtpVerif.C25.authentic_implies_sealed_prefix
 #print axioms NtpVerif.C25.tamper_before_fails
+#print axioms NtpVerif.C25.nothing_unless_sealed_triple
+#print axioms NtpVerif.C25.authentic_implies_sealed_triple
+#print axioms NtpVerif.C25.tamper_nonce_ct_fails
+#print axioms NtpVerif.C25.tamper_fails
+#print axioms NtpVerif.C25.other_changes_harmless
+#print axioms NtpVerif.C25.nonce_byte_change
+#print axioms NtpVerif.C25.ct_byte_change
